@@ -1,16 +1,4 @@
 // ---- dynamic block header (RFC 1951 3.2.7) as HuffmanOriginalEncoding records it: shared by reader (U13) and writer (U15) ----
-pub open spec fn tc_sym(t: TreeCodeType) -> int { match t { TreeCodeType::Code => 0, TreeCodeType::Repeat => 16, TreeCodeType::ZeroShort => 17, TreeCodeType::ZeroLong => 18 } }
-pub open spec fn tc_sub(t: TreeCodeType) -> int { match t { TreeCodeType::Code => 0, TreeCodeType::Repeat => 3, TreeCodeType::ZeroShort => 3, TreeCodeType::ZeroLong => 11 } }
-pub open spec fn tc_nbits(t: TreeCodeType) -> nat { match t { TreeCodeType::Code => 0, TreeCodeType::Repeat => 2, TreeCodeType::ZeroShort => 3, TreeCodeType::ZeroLong => 7 } }
-
-pub open spec fn rle_ok(it: (TreeCodeType, u8)) -> bool {
-    match it.0 { TreeCodeType::Code => it.1 <= 15, t => tc_sub(t) <= it.1 && ((it.1 - tc_sub(t)) as nat) < pow2(tc_nbits(t)) }
-}
-pub open spec fn rle_count(it: (TreeCodeType, u8)) -> int { match it.0 { TreeCodeType::Code => 1, _ => it.1 as int } }
-pub open spec fn rle_total(items: Seq<(TreeCodeType, u8)>) -> int
-    decreases items.len()
-{ if items.len() == 0 { 0 } else { rle_total(items.drop_last()) + rle_count(items.last()) } }
-
 /// bits of one run-length item under the code-length code cl (the 19 lengths of the code-length alphabet)
 pub open spec fn rle_item_bits(cl: Seq<u8>, it: (TreeCodeType, u8)) -> Seq<bool> {
     match it.0 {
